@@ -322,7 +322,7 @@ func (dr *DialogueRunner) executeJumpStatement(statement *tree.JumpStatement) er
 		return fmt.Errorf("node [%s] not found in dialogue", *value.String)
 	} else {
 		dr.incrementNodeTrackingIfAllowed()
-		dr.variableSnapshot = dr.variableStorer.GetValues()
+		dr.variableSnapshot = copyVariables(dr.variableStorer.GetValues())
 		dr.statementsToRun.Clear()
 		dr.statementsToRun.Push(&statementQueue{statements: node.Statements})
 		dr.currentNode = node.Title()
@@ -421,7 +421,10 @@ func (dr *DialogueRunner) RestoreAt(snapshot *Snapshot) error {
 		return fmt.Errorf("dialogue does not contain a node with title [%s]", snapshot.CurrentNode)
 	}
 
-	dr.visitedNodes = snapshot.VisitedNodes
+	dr.visitedNodes = copyVisitedNodes(snapshot.VisitedNodes)
+	dr.variableSnapshot = copyVariables(snapshot.Variables)
+	dr.lastStatement = nil
+	dr.commandErrChan = nil
 	dr.variableStorer.Clear()
 	for variable, value := range snapshot.Variables {
 		if value.Boolean != nil {
@@ -467,10 +470,33 @@ func (dr *DialogueRunner) ConvertAndAddCommand(commandID string, command any) er
 // It can then be used to later restore the state of the dialogue runner.
 func (dr *DialogueRunner) Snapshot() *Snapshot {
 	return &Snapshot{
-		Variables:    dr.variableSnapshot,
+		Variables:    copyVariables(dr.variableSnapshot),
 		CurrentNode:  dr.currentNode,
-		VisitedNodes: dr.visitedNodes,
+		VisitedNodes: copyVisitedNodes(dr.visitedNodes),
 	}
+}
+
+func copyVisitedNodes(visitedNodes map[string]int) map[string]int {
+	result := make(map[string]int, len(visitedNodes))
+	for node, count := range visitedNodes {
+		result[node] = count
+	}
+	return result
+}
+
+func copyVariables(variables map[string]variable.Value) map[string]variable.Value {
+	result := make(map[string]variable.Value, len(variables))
+	for name, value := range variables {
+		switch {
+		case value.Number != nil:
+			result[name] = *variable.NewNumber(*value.Number)
+		case value.Boolean != nil:
+			result[name] = *variable.NewBoolean(*value.Boolean)
+		case value.String != nil:
+			result[name] = *variable.NewString(*value.String)
+		}
+	}
+	return result
 }
 
 type statementQueue struct {
